@@ -41,6 +41,12 @@ func c04Scenarios(thorough bool) []c04Scenario {
 		// two versions of a held file: version 1 arrives while its predecessor is unknown (retry timer
 		// armed), the predecessor arrives and is held itself, version 2 replaces version 1
 		{Name: "new-version-of-held-file", Lean: true, Files: []*sFile{one("f0", "xa", "", "0000"), one("f1", "a", "xa", "1111"), one("f2", "a.b", "a", "2222"), one("f2b", "a.b", "a", "3333")}},
+		// the name of a held file was delivered before, three days ago (log record only); its successor
+		// carries a modification time five days back, so that receiving it extends the cache beyond
+		// that old record while the new version is still held
+		{Name: "reused-name-held-while-cache-grows-back", Lean: true, Prelog: map[string]time.Duration{"a": 3 * 24 * time.Hour},
+			Files: []*sFile{one("f0", "xa", "", "0000"), one("f1", "a", "xa", "1111"),
+				{Key: "f2", Name: "a.b", Prev: "a", Data: "2222", Cuts: []int64{0, 4}, TimeOff: -5 * 24 * 3600}}},
 		{Name: "only-superstrings-logged", Files: []*sFile{one("f2", "a.b", "a", "2222")}, Prelog: map[string]time.Duration{"xa": time.Minute, "a.b": 25 * time.Hour, "d/a": time.Minute}},
 	}
 	if thorough {
@@ -159,6 +165,13 @@ func c04Check(sc c04Scenario) func(s *sim, _ bool) vh.HistResult {
 				continue
 			}
 			_, prelogged := sc.Prelog[f.Prev]
+			if prelogged && byName[f.Prev] != nil && at > 0 {
+				// the predecessor's name is used again in this run: the record of the earlier run
+				// stands for it only as long as the new version is not in the receiver's hands
+				if st := s.steps[at-1].States[f.Prev]; st == stateReceived || st == stateValidated || st == stateFailed {
+					prelogged = false
+				}
+			}
 			pAt, pDelivered := deliveredAt[f.Prev]
 			orderOK := prelogged || (pDelivered && (pAt < at || (pAt == at && logIdx[f.Prev] < logIdx[name])))
 			if orderOK {
@@ -212,6 +225,11 @@ func c04Check(sc c04Scenario) func(s *sim, _ bool) vh.HistResult {
 				continue
 			}
 			_, prelogged := sc.Prelog[f.Prev]
+			if prelogged && byName[f.Prev] != nil {
+				if st := last.States[f.Prev]; st == stateReceived || st == stateValidated || st == stateFailed {
+					prelogged = false // the new version of the predecessor is in flight: waiting for it is right
+				}
+			}
 			if last.Act.Op == "adv10s" && prelogged && sc.Prelog[f.Prev] > 24*time.Hour {
 				continue // the log is searched one more day back per retry
 			}
@@ -276,7 +294,7 @@ func TestC04(t *testing.T) {
 // receive log, an earlier one, however long ago); same machinery and oracle as C04.
 func TestC03Hold(t *testing.T) {
 	runC04(t, "C03", "held files are released (E-HIST on the stage)", func(name string) bool {
-		return strings.HasPrefix(name, "logged") || name == "chain" || name == "forest" || name == "new-version-of-held-file"
+		return strings.HasPrefix(name, "logged") || name == "chain" || name == "forest" || name == "new-version-of-held-file" || name == "reused-name-held-while-cache-grows-back"
 	})
 }
 
